@@ -1,6 +1,13 @@
 """Single table of claimed checks; bin/mkmanifest renders MANIFEST.json from it."""
 
 CHECKS = {
+    "C13": dict(
+        level="exploration",
+        technique="TLA+ generator GenHeap (state = history of list/map operations on two containers and a re-pointable/clonable alias; BFS over all histories to a bound + -simulate long ones, two-phase: enumerate histories, expand the selected ones into programs); TLA+ heap model in MSLang (lists = sequences, maps = finite entry lists, references) evaluated by TLC; replay on the real binary; TLC judge CheckLang",
+        text="Exploration of operation histories with every variable (including aliases) observed after every operation: all single operations, all/sampled pairs, seeded longer histories, each compared with the mathematical sequence / finite-map model.",
+        note="Trusts MSLang's heap model; map iteration order is not observed; element types int/str/int?; nested lists are not generated yet.",
+        design="5/C13",
+    ),
     "C12": dict(
         level="translation_validation",
         technique="TLA+ generator GenOpt (full product carrier x type x nil/present x use x position); TLA+ reference semantics MSLang (nil, get, or with lazy default, ?= as store+presence) evaluated by TLC; replay on the real binary via run and compile+execute; TLC judge CheckLang incl. source position of a failing `get`",
